@@ -528,7 +528,9 @@ hrnp_frame.cost = 5
 # ---------------------------------------------------------------------------------------------- HSTRP frames
 HSTRP_KINDS = {"data": dict(have_options=True), "plain": dict(), "ack": dict(is_ack=True), "connect": dict(is_connect=True), "close": dict(is_close=True),
                "heartbeat": dict(is_heartbeat=True), "reject": dict(is_reject=True), "connect_ack": dict(is_connect=True, is_ack=True)}
-OPTION_LISTS = [(("DeviceID", 4), ("ChannelID", 1)), (("RTP", 0),), (("DeviceID", 4),), (("XPTSiteID", 1), ("XPTIndex", 1), ("XPTChannelType", 1)), (("ChannelID", 0), ("DeviceID", 7))]
+OPTION_LISTS = [(("DeviceID", 4), ("ChannelID", 1)), (("RTP", 0),), (("DeviceID", 4),), (("XPTSiteID", 1), ("XPTIndex", 1), ("XPTChannelType", 1)), (("ChannelID", 0), ("DeviceID", 7)),
+                # 'any option list': the same option type more than once (the symbolic contents may coincide or differ)
+                (("ChannelID", 1), ("DeviceID", 4), ("ChannelID", 1)), (("RTP", 0), ("RTP", 0)), (("XPTIndex", 1), ("XPTIndex", 1), ("XPTIndex", 1))]
 
 
 @contract("HSTRP.as_bytes", "okdmr.dmrlib.hytera.pdu.hstrp:HSTRP.as_bytes", ["C12"], stubs=["HDAP.get_hdap_checksum"])
@@ -563,7 +565,7 @@ def _hstrp_shapes(tier):
     for i, inner in enumerate(nest):
         out.append(dict(kind="plain", inner=inner))
         for j, ol in enumerate(OPTION_LISTS):
-            if tier != "quick" or (i + j) % 3 == 0:
+            if tier != "quick" or (i + j) % 3 == 0 or (j >= 5 and i < 2):
                 out.append(dict(kind="data", opts=[list(x) for x in ol], inner=inner))
     out.append(dict(kind="ack", inner=nest[0]))
     out.append(dict(kind="data", opts=[list(x) for x in OPTION_LISTS[0]]))
